@@ -109,6 +109,19 @@ def run(repo: Repo, rep: Report, tier: str) -> None:
             return None
         return res.pop()
 
+    # ---- both predicates measure the whole buffer ---------------------------------
+    rep.rule("position-independent", "the data-set stream is measured (announce) and read (send) through whole-buffer accessors only (getvalue / getbuffer), never relative to the stream position")
+    n_acc = 0
+    for fn_, fq_ in ((p2m, fq_a), (enc, fq_b)):
+        for c in walk_no_nested(fn_):
+            if isinstance(c, ast.Call) and isinstance(c.func, ast.Attribute):
+                base = norm(strip_cast(c.func.value))
+                if base in ("self.data_set", "data_set", "dataset"):
+                    n_acc += 1
+                    okk = c.func.attr in ("getvalue", "getbuffer", "close")
+                    rep.check(okk, "position-independent", fq_, enclosing(c, (ast.stmt,)) or c, f"the data set stream is accessed with .{c.func.attr}(), which depends on the current stream position: whether a data set is announced is decided from the whole buffer, so with the stream not at 0 (an EVT_DIMSE_SENT handler read it, a user-built BytesIO that was written and not rewound) a data set is announced and fewer or no data-set fragments are sent - the peer never completes the message", mod=mod, node=c)
+    rep.floor("data-set stream accessors", n_acc, 2)
+
     # ---- premise: who writes _dataset_path ------------------------------------
     path_only_with_none_ds = _check_path_premise(repo, rep)
 
